@@ -30,7 +30,7 @@ CLAUSE_PROP = {
     "inputs-unmodified": "C04", "replaced-count-is-nearest-integer": "C04", "only-selected-matches-are-replaced": "C04",
     "atom-count": "C04", "which-atoms-removed-and-inserted": "C04", "bystander-position": "C04", "atoms-data": "C04",
     "inserted-atoms-placement": "C05", "inserted-inside-cell": "C05",
-    "atoms-type-meaning": "C06", "term-listed-twice": "C06", "bonds": "C06", "angles": "C06", "dihedrals": "C06",
+    "atoms-type-meaning": "C06", "atoms-element": "C04", "term-listed-twice": "C06", "bonds": "C06", "angles": "C06", "dihedrals": "C06",
     "impropers": "C06",
     "overlap-error-although-ignored": "C07", "overlap-error-without-overlap": "C07", "overlap-not-refused": "C07",
     "no-exception": "C04", "projection": "C05", "one-entry-per-atom-and-term": "C09", "cell": "C04", "consistent": "C09",
@@ -196,16 +196,30 @@ def run_stubbed(req, vi, sd):
         R = Rendering("rotated", s, katoms.random_rotation(rnd))
     ev = dict(req)
     ev.update({"post": empty_K(), "count": -1, "exc": "none", "src_same": "yes", "wf": "ok"})
-    with contextlib.redirect_stderr(io.StringIO()), contextlib.redirect_stdout(io.StringIO()):
-        st = render(req["pre"], R)
-        Rs = Rendering("pat", s)               # patterns keep their own frame; the structure may be rotated against it
-        sp = render(req["sp"], Rs)
-        rp = render(req["rp"], Rs)
+    try:
+        with contextlib.redirect_stderr(io.StringIO()), contextlib.redirect_stdout(io.StringIO()):
+            st = render(req["pre"], R)
+            Rs = Rendering("pat", s)           # patterns keep their own frame; the structure may be rotated against it
+            sp = render(req["sp"], Rs)
+            rp = render(req["rp"], Rs)
+    except Exception as e:                     # consistent inputs must be constructible
+        ev["exc"] = "constructing-inputs:" + type(e).__name__
+        ev["exc_msg"] = str(e)[:200]
+        return ev
     idx = [tuple(int(i) - 1 for i in f["t"]) for f in req["found"]]
 
     def stub(structure, pattern, *a, **k):
         pos = np.array([[structure.positions[i] for i in t] for t in idx], dtype=float).reshape(len(idx), len(pattern), 3)
-        quats = np.array([Rotation.from_matrix(R.Q) for _ in idx])
+        # the rotation a correct search would report: best proper rotation carrying the pattern onto the match
+        quats = []
+        pp = np.array(pattern.positions, dtype=float)
+        for m in range(len(idx)):
+            if len(pp) >= 2:
+                rot, _ = Rotation.align_vectors(pos[m] - pos[m][0], pp - pp[0])
+            else:
+                rot = Rotation.from_matrix(R.Q)
+            quats.append(rot)
+        quats = np.array(quats)
         if k.get("return_positions_and_quats"):
             return list(idx), pos, quats
         return list(idx)
@@ -245,8 +259,8 @@ def stub_cfg(c, emit):
 
 
 STUB_TIERS = {
-    "quick": dict(SPNames='{"CH", "NCN", "CCH"}', Flavours='{"p", "b", "m"}', MaxCopies=3, Fracs="FracsQ", variants=2),
-    "thorough": dict(SPNames='{"CH", "NCN", "CCH"}', Flavours='{"p", "b", "m"}', MaxCopies=3, Fracs="FracsT", variants=3),
+    "quick": dict(SPNames='{"CH", "NCN", "CCH", "CHN"}', Flavours='{"p", "b", "m"}', MaxCopies=3, Fracs="FracsQ", variants=2, sample=4000),
+    "thorough": dict(SPNames='{"CH", "NCN", "CCH", "CHN"}', Flavours='{"p", "b", "m"}', MaxCopies=3, Fracs="FracsT", variants=3),
 }
 
 
@@ -262,6 +276,9 @@ def stubbed_events(tier, sd, out):
     if g.error:
         raise MachineryError("MC_Replace emission failed:\n" + g.error)
     reqs = [tla_string_to_json(rest) for t, rest in g.printed if t == "REQUEST"]
+    if c.get("sample"):
+        random.Random(sd).shuffle(reqs)
+        reqs = reqs[: c["sample"]]
     idx = list(enumerate(reqs))
     chunks = [(idx[k::28], sd, c["variants"]) for k in range(28)]
     with multiprocessing.get_context("fork").Pool(14) as pool:
@@ -280,12 +297,13 @@ def _exec_chunk(task):
     return out
 
 
-def attribute(prop, verdict):
+def attribute(prop, verdict, rq=None):
     if verdict.startswith("blocked"):
         return False
     p = CLAUSE_PROP.get(verdict)
-    if prop == "C09":
-        return p == "C09"
+    if prop == "C08":
+        # self-replacement and substitute-and-back: whatever clause fails on these requests breaks C08
+        return bool(rq) and (rq.get("rp") in ("same", "subst") or rq.get("chain"))
     return p == prop
 
 
@@ -345,7 +363,7 @@ def run(prop, tier, replay=None):
         if key not in events:
             events[key] = e
             where[key] = (ci, rq, ev)
-    if not replay and prop in ("C04", "C06", "C07"):
+    if not replay and prop in ("C04", "C06", "C07", "C08"):
         reqs, sres = stubbed_events(tier, sd, out)
         out.evaluations += len(sres)
         out.notes["stubbed_requests"] = len(reqs)
@@ -354,7 +372,9 @@ def run(prop, tier, replay=None):
             key = json.dumps(e, sort_keys=True)
             if key not in events:
                 events[key] = e
-                where[key] = (-1, {"rp": "stub", "fn": ev["fn"], "fd": ev["fd"], "replace_all": ev["replace_all"] == "yes",
+                selfrep = sorted((ev["rp"]["tel"][t], tuple(p)) for t, p in zip(ev["rp"]["ty"], ev["rp"]["pos"])) == \
+                    sorted((ev["sp"]["tel"][t], tuple(p)) for t, p in zip(ev["sp"]["ty"], ev["sp"]["pos"]))
+                where[key] = (-1, {"rp": "same" if selfrep else "stub", "fn": ev["fn"], "fd": ev["fd"], "replace_all": ev["replace_all"] == "yes",
                                    "param": bool(ev["rp"]["tpc"]), "stub_variant": vi}, ev)
         out.notes["phase_end_s"]["stubbed"] = round(time.time() - t0, 1)
     keys = list(events)
@@ -374,7 +394,7 @@ def run(prop, tier, replay=None):
                             "replaced": e["count"], "atoms_before": len(e["pre"]["q"]), "atoms_after": len(e["post"]["q"])})
             continue
         by[vd] = by.get(vd, 0) + 1
-        if attribute(prop, vd):
+        if attribute(prop, vd, rq):
             sig = {"op": "replace", "clause": vd, "flags": flags(crystals[ci] if ci >= 0 else None, rq, e), "exc": ev["exc"],
                    "exc_msg": ev.get("exc_msg", "")}
             out.violation(sig, {"crystal": crystals[ci] if ci >= 0 else None, "request": rq, "observed": ev})
